@@ -1,2 +1,4 @@
 #!/bin/bash
-for ID in C07 C08 C09 C20 C02 C14; do s=$(date +%s); ./run.sh $ID thorough > /tmp/thor2_$ID.log 2>&1; rc=$?; e=$(date +%s); echo "$ID thorough exit=$rc wall=$((e-s))s $(grep -c '^VIOLATION' /tmp/thor2_$ID.log) violations"; done
+# thor_subset.sh <ID>...: thorough tier of the named checks, one line each
+cd "$(dirname "$0")/.."
+for ID in "$@"; do s=$(date +%s); ./run.sh $ID thorough > /tmp/thor2_$ID.log 2>&1; rc=$?; e=$(date +%s); echo "$ID thorough exit=$rc wall=$((e-s))s $(grep -c '^VIOLATION' /tmp/thor2_$ID.log) violations"; done
